@@ -518,18 +518,20 @@ def patch_requests(client):
     import liquer.remote_store as RS
     saved = (RS.requests.get, RS.requests.post)
 
-    def path_of(url):
-        u = requests.utils.requote_uri(url)
-        p = urllib.parse.urlsplit(u)
+    def path_of(url, params=None):
+        # requests' own URL preparation (requote_uri + the encoding of `params` into the query string)
+        pr = requests.models.PreparedRequest()
+        pr.prepare_url(url, params)
+        p = urllib.parse.urlsplit(pr.url)
         return p.path + ("?" + p.query if p.query else "")
 
-    def get(url, **kw):
-        return FakeResponse(client.get(path_of(url)), url)
+    def get(url, params=None, **kw):
+        return FakeResponse(client.get(path_of(url, params)), url)
 
-    def post(url, json=None, data=None, headers=None, **kw):
+    def post(url, json=None, data=None, headers=None, params=None, **kw):
         if json is not None:
-            return FakeResponse(client.post(path_of(url), json=json), url)
-        return FakeResponse(client.post(path_of(url), data=data, headers=headers), url)
+            return FakeResponse(client.post(path_of(url, params), json=json), url)
+        return FakeResponse(client.post(path_of(url, params), data=data, headers=headers), url)
 
     RS.requests.get, RS.requests.post = get, post
     return saved
